@@ -368,10 +368,16 @@ class PoolRunner:
         alphabet = [("go", 0), ("go", 1), ("advance", 1), ("advance", 3), ("peerclose", 0)]
         length = 4 if quick else 5
         n = 0
-        for mc, mk, ex in configs:
+        from .pool_scenarios import H2, world_h2
+
+        # HTTP/1.1 words, then the same words (without server-side closes) on HTTP/2 connections
+        protos = [(c, "h1") for c in configs] + [(c, "h2") for c in (configs if not quick else [(2, 1, 2), (1, None, 0)])]
+        for (mc, mk, ex), proto in protos:
             for seqn in itertools.product(range(len(alphabet)), repeat=length):
                 steps = [alphabet[i] for i in seqn]
                 if sum(1 for s in steps if s[0] == "go") < 2:
+                    continue
+                if proto == "h2" and any(s[0] == "peerclose" for s in steps):
                     continue
                 if quick and self.rng.random() > 0.12:
                     continue
@@ -394,7 +400,10 @@ class PoolRunner:
                         script.append(("peerclose", 0))
                 if len(calls) > 6:
                     continue
-                scen = Scenario(f"keepalive-mc{mc}-mk{mk}-ex{ex}", dict(max_connections=mc, max_keepalive_connections=mk, keepalive_expiry=ex), calls)
+                if proto == "h2":
+                    scen = Scenario(f"keepalive-h2-mc{mc}-mk{mk}-ex{ex}", dict(max_connections=mc, max_keepalive_connections=mk, keepalive_expiry=ex, **H2), calls, world=world_h2, enc={"h2_origins": [0, 1]})
+                else:
+                    scen = Scenario(f"keepalive-mc{mc}-mk{mk}-ex{ex}", dict(max_connections=mc, max_keepalive_connections=mk, keepalive_expiry=ex), calls)
                 run = scen.make()
                 run_script(run, script)
                 self.add(scen, ("script", n), run, extra=[list(s) for s in script])
